@@ -28,6 +28,7 @@ type Obligation struct {
 	Pos       string
 	Desc      string
 	Alloc     *Term // allocation counter at the point of the obligation
+	NoUnfold  bool  // recursive spec functions stay opaque (loop-free function: no induction step to support)
 	ExpectSat bool  // vacuity / cover: the query (PC && Goal) must be satisfiable
 	// results
 	Verdict string
@@ -51,6 +52,7 @@ type FuncCtx struct {
 	stack     []*ssa.Function
 	wrap      bool
 	inlined   map[string]bool
+	inlinedWithLoops map[string]bool
 	curTags   []string
 }
 
@@ -152,6 +154,13 @@ func (fc *FuncCtx) propsFor() []string {
 func VerifyFunction(p *Program, fn *ssa.Function, c *Contract) (fc *FuncCtx, err error) {
 	fc = &FuncCtx{p: p, top: fn, contract: c, notes: map[string]bool{}, counters: map[string]int{}, inlined: map[string]bool{}}
 	fc.wrap = c.Arith == "wrap64"
+	savedFloat := floatSort
+	if c.Float == "xreal" {
+		floatSort = SXReal
+	} else {
+		floatSort = SReal
+	}
+	defer func() { floatSort = savedFloat }()
 	defer func() {
 		if r := recover(); r != nil {
 			switch e := r.(type) {
@@ -216,6 +225,11 @@ func VerifyFunction(p *Program, fn *ssa.Function, c *Contract) (fc *FuncCtx, err
 	fc.obls = append(fc.obls, &Obligation{Name: fr.prefix + "#vacuity:requires#1", Kind: "vacuity", Func: fr.prefix, Hyps: fc.axioms, PC: st.pc, Goal: True, ExpectSat: true, Pos: p.pos(fn.Pos()), Desc: "precondition is satisfiable", Props: c.Props, Alloc: st.alloc})
 	fr.onReturn = func(rst *State, vals []Val) { fc.checkPost(fr, rst, vals) }
 	ret, _ := fc.run(fr, st, args, fvs)
+	if !hasLoop(fn) && len(fc.inlinedWithLoops) == 0 {
+		for _, o := range fc.obls {
+			o.NoUnfold = true
+		}
+	}
 	if ret == nil || ret.dead {
 		// no normal return (e.g. always panics / infinite loop)
 		return fc, nil
@@ -348,6 +362,17 @@ func (fc *FuncCtx) lookupLocal(fr *Frame, st *State, name string) (SVal, bool) {
 
 func (fc *FuncCtx) checkPost(fr *Frame, ret *State, vals []Val) {
 	c := fc.contract
+	if len(c.Hints) > 0 {
+		henv := fc.envFor(fr, ret, vals, true)
+		for _, h := range c.Hints {
+			t, e := henv.ElabBool(h.Expr)
+			if e != nil {
+				panic(elabErr{fmt.Sprintf("%s:%d: hint: %v", c.File, h.Line, e)})
+			}
+			fc.addSplit(fr, ret, "hint", h.Text, t, fr.fn.Pos(), "intermediate fact at the return (proved, then used for the postconditions)")
+			ret.assume(t)
+		}
+	}
 	env := fc.envFor(fr, ret, vals, false)
 	for _, en := range c.Ensures {
 		t, e := env.ElabBool(en.Expr)
